@@ -30,7 +30,7 @@ def positions():
 
 
 def parse_spec(spec):
-    m = re.match(r"d(\d+)(?:n(\d+))?(x?)(l?)(?:[sc]\d+)?(?:t[\d:]+)?$", spec)
+    m = re.match(r"d(\d+)(?:n(\d+))?(x?)(l?)(?:[scmk]\d+)?(?:t[\d:]+)?$", spec)
     return int(m.group(1)), (int(m.group(2)) if m.group(2) else None), m.group(3) == "x", m.group(4) == "l"
 
 
@@ -63,16 +63,24 @@ def make_cases(tier, seed, groups):
                 d = 2
             cases.append({"group": "budget-probe", "fen": fen, "moves": ms, "specs": ["d%d" % d], "depth": d})
     if "cut" in groups:
-        # C13: interruption by stop / by the game clock at the K-th leaf evaluation (engine-side property check)
+        # C13 / C09: interruption by stop (s), by the game clock (c) or by movetime (m), forced at the K-th leaf
+        # evaluation.  The engine reports the index of the flag load / clock reading that first sees the
+        # interruption (guarded counters); the model is run with exactly that oracle and everything is compared.
         chosen = [pos[i] for i in (0, 2, 5, 13, 17)] if tier == "quick" else pos
         for fen, ms in chosen:
             pieces = sum(1 for ch in fen.split()[0] if ch.isalpha())
             d = 3 if pieces <= 20 else 2
             ks = [1, 2, 3, 5, 8, 13, 21, 34, 55, 89, 144, 233] if tier == "quick" else list(range(1, 400, 3))
+            cases.append({"group": "cut-full", "fen": fen, "moves": ms, "specs": ["d%d" % d], "depth": d})
             for k in ks:
-                cases.append({"group": "cut", "fen": fen, "moves": ms, "specs": ["d%ds%d" % (d, k)], "nomodel": True})
+                cases.append({"group": "cut", "fen": fen, "moves": ms, "specs": ["d%ds%d" % (d, k)], "depth": d})
             for k in (ks[2::3] if tier == "quick" else ks[::4]):
-                cases.append({"group": "cut", "fen": fen, "moves": ms, "specs": ["d%dc%d" % (d, k)], "nomodel": True})
+                cases.append({"group": "cut", "fen": fen, "moves": ms, "specs": ["d%dc%d" % (d, k)], "depth": d})
+            for k in (ks[1::3] if tier == "quick" else ks[1::4]):
+                cases.append({"group": "cut", "fen": fen, "moves": ms, "specs": ["d%dm%d" % (d, k)], "depth": d})
+            # no time limit given and the clock jumps by four months at the K-th leaf: nothing may change (C16_clock_free)
+            for k in (ks[0::4] if tier == "quick" else ks[2::4]):
+                cases.append({"group": "cut", "fen": fen, "moves": ms, "specs": ["d%dk%d" % (d, k)], "depth": d})
     if "timer" in groups:
         # C09: the time-management budget for both colours
         for i in range(24 if tier == "quick" else 400):
@@ -127,6 +135,14 @@ def run_model(cases, timeout=3000):
     items = []
     for i in order:
         c = cases[i]
+        if c["group"] == "cut":
+            # the oracle index observed on the engine: flag load (stop) or clock reading (clock, movetime)
+            kind = {"s": 0, "c": 1, "m": 2, "k": 3}[re.search(r"[scmk]", c["specs"][0]).group(0)]
+            idx = c.get("cut_index", -1)
+            items.append("cut_case %s [%s] %d%%nat %d%%N %s%%N true" % (
+                B.coq_str(c["fen"]), "; ".join(B.coq_str(m) for m in c["moves"]), c["depth"], kind,
+                idx if idx >= 0 else 10 ** 12))
+            continue
         items.append("search_case %s [%s] [%s]" % (B.coq_str(c["fen"]), "; ".join(B.coq_str(m) for m in c["moves"]),
                                                     "; ".join(coq_spec(s) for s in c["specs"])))
     vals, lg = C.coq_eval_items("scorr", HEADER, items, lambda l: l, nshards=C.NPROC * 2, timeout=timeout)
@@ -271,6 +287,10 @@ def run(tier, seed, groups=("value", "budget", "seq", "cut", "timer")):
         if extra:
             cases = cases + extra
             eng = eng + run_engine(extra)
+        for c, e in zip(cases, eng):
+            if c["group"] == "cut" and e["results"]:
+                r0 = e["results"][0]
+                c["cut_index"] = r0.get("cut_loads", -1) if "s" in c["specs"][0][1:] else r0.get("cut_reads", -1)
         t1 = time.time()
         mod, lg = run_model(cases)
         t2 = time.time()
